@@ -423,6 +423,9 @@ def run(case, rec):
                 b = idxB.base(f['type'])
                 if b[0] == 'prim' and b[1] in ('Bytes', 'Timestamp'):
                     continue
+                if f['default'][0] == 'lit' and M.lexer_rewrites(f['default'][1]):
+                    rec.note('default_literal_rewritten_by_lexer(judged by C02)')
+                    continue
                 rec.case(core.h64((kinds, 'default', nB, dB['name'], f['name'], repr(render.render(apiB)[0]))), True,
                          classes=['new_field_default:' + f['default'][0]])
                 try:
